@@ -115,7 +115,7 @@ fn step(ctx: &mut Ctx, d: &mut Ddnnf, spec: &mut Spec, start: &str, hist: &mut V
             if *n != spec.cur.1 || *set != spec.cur.0 || *declared != set.len() {
                 ctx.out.fail("save-cnf-state", start, &label, &format!("p cnf {} {} : {}", n, declared, fmt_set(set)), &format!("p cnf {} {} : {}", spec.cur.1, spec.cur.0.len(), fmt_set(&spec.cur.0)));
             }
-            format!("{} | {}", n, fmt_set(set))
+            format!("{} | {}", n, fmt_set(set)).trim_end().to_string()
         }
         Err(e) => { ctx.out.fail("save-cnf", start, &label, e, "file written"); "?".into() }
     };
